@@ -337,41 +337,49 @@ Qed.
 
 (* ------------------------------------------------------------------ *)
 (** * the blocks of unMakeMove *)
+Lemma um_restore1 sqs wm h fm cm ep q ui :
+  St 0 sqs (wm, h, fm, cm, ep) q -> f < 64 -> t < 64 -> u_captured ui < 13 ->
+  St 0 (updN f (nthP sqs t) (updN t (u_captured ui) sqs))
+     (negb wm, u_halfMoveClock ui, fm, u_castleMask ui, u_epSquare ui) (umRestore1 zk q m ui).
+Proof.
+  intros S Hf Ht Hcap.
+  unfold umRestore1. cbv zeta. fold f t.
+  destruct (St_scalars _ _ _ _ _ _ _ _ S) as (Hwm & _).
+  change (whiteMove (set_hashKey q (N.lxor (hashKey q) (zk_white zk)))) with (whiteMove q). rewrite Hwm.
+  assert (S2 : St 0 sqs (negb wm, h, fm, cm, ep)
+                  (set_whiteMove (set_hashKey q (N.lxor (hashKey q) (zk_white zk))) (negb wm))).
+  { apply St_flip. apply St_toggle. exact S. }
+  rewrite (St_getPiece _ _ _ _ t S2).
+  apply St_set_hmc with (h := h). apply St_setEp with (ep := ep). apply St_setCastle with (cm := cm).
+  apply St_setPiece; auto; [|eapply St_pieces; eauto].
+  apply St_setPiece; auto.
+Qed.
+
 Lemma um_restore sqs wm h fm cm ep q ui :
   St 0 sqs (wm, h, fm, cm, ep) q -> f < 64 -> t < 64 -> u_captured ui < 13 ->
   let pc1 := if negb (mpromote m =? EMPTY) then (if negb wm then WPAWN else BPAWN) else nthP sqs t in
-  exists q', umRestoreBlock zk q m ui = (q', pc1) /\
-    St 0 (updN f pc1 (updN t (u_captured ui) sqs))
-       (negb wm, u_halfMoveClock ui, (if wm then fm - 1 else fm)%Z, u_castleMask ui, u_epSquare ui) q'.
+  snd (umRestoreBlock zk q m ui) = pc1 /\
+  St 0 (updN f pc1 (updN t (u_captured ui) sqs))
+     (negb wm, u_halfMoveClock ui, (if wm then fm - 1 else fm)%Z, u_castleMask ui, u_epSquare ui)
+     (fst (umRestoreBlock zk q m ui)).
 Proof.
   intros S Hf Ht Hcap pc1.
+  pose proof (um_restore1 _ _ _ _ _ _ _ ui S Hf Ht Hcap) as S7.
+  destruct (St_scalars _ _ _ _ _ _ _ _ S7) as (Hwm7 & _ & Hfm7 & _).
   unfold umRestoreBlock. cbv zeta. fold f t.
-  pose proof (St_toggle _ _ _ _ S) as S1. rewrite N.lxor_0_l in S1.
-  set (q1 := set_hashKey q (N.lxor (hashKey q) (zk_white zk))) in *.
-  destruct (St_scalars _ _ _ _ _ _ _ _ S1) as (Hwm & _). rewrite Hwm.
-  assert (S2 : St 0 sqs (negb wm, h, fm, cm, ep) (set_whiteMove q1 (negb wm))).
-  { apply St_flip. rewrite N.lxor_0_l. exact S1. }
-  set (q2 := set_whiteMove q1 (negb wm)) in *.
-  rewrite (St_getPiece _ _ _ _ t S2).
-  assert (Hp0 : nthP sqs t < 13) by (eapply St_pieces; eauto).
-  pose proof (St_setPiece _ _ _ _ t (u_captured ui) S2 Ht Hcap) as S3.
-  pose proof (St_setPiece _ _ _ _ f (nthP sqs t) S3 Hf Hp0) as S4.
-  pose proof (St_setCastle _ _ _ _ _ _ _ _ (u_castleMask ui) S4) as S5.
-  pose proof (St_setEp _ _ _ _ _ _ _ _ (u_epSquare ui) S5) as S6.
-  pose proof (St_set_hmc _ _ _ _ _ _ _ _ (u_halfMoveClock ui) S6) as S7.
-  set (q7 := set_halfMoveClock _ _) in *.
-  destruct (St_scalars _ _ _ _ _ _ _ _ S7) as (Hwm7 & _ & Hfm7 & _). rewrite Hwm7.
-  unfold pc1. destruct (negb (mpromote m =? EMPTY)).
-  - assert (Hpw : (if negb wm then WPAWN else BPAWN) < 13) by (destruct wm; simpl; reflexivity).
+  rewrite (St_getPiece _ _ _ _ t S). rewrite Hwm7.
+  unfold pc1. destruct (negb (mpromote m =? EMPTY)); cbv beta iota.
+  - assert (Hpw : (if negb wm then WPAWN else BPAWN) < 13) by (destruct wm; reflexivity).
     pose proof (St_setPiece _ _ _ _ f _ S7 Hf Hpw) as S8.
-    unfold updN in S8 at 1 2. rewrite updL_updL_same in S8. fold (updN f (if negb wm then WPAWN else BPAWN) (updN t (u_captured ui) sqs)) in S8.
+    unfold updN in S8 at 1 2. rewrite updL_updL_same in S8.
+    fold (updN f (if negb wm then WPAWN else BPAWN) (updN t (u_captured ui) sqs)) in S8.
     destruct (St_scalars _ _ _ _ _ _ _ _ S8) as (_ & _ & Hfm8 & _).
-    destruct wm; simpl in *.
-    + eexists; split; [reflexivity|]. rewrite Hfm8. eapply St_set_fmc. exact S8.
-    + eexists; split; [reflexivity|]. exact S8.
-  - destruct wm; simpl in *.
-    + eexists; split; [reflexivity|]. rewrite Hfm7. eapply St_set_fmc. exact S7.
-    + eexists; split; [reflexivity|]. exact S7.
+    destruct wm; cbn [negb fst snd] in *.
+    + split; [reflexivity|]. rewrite Hfm8. apply St_set_fmc with (fm := fm). exact S8.
+    + split; [reflexivity|]. exact S8.
+  - destruct wm; cbn [negb fst snd] in *.
+    + split; [reflexivity|]. rewrite Hfm7. apply St_set_fmc with (fm := fm). exact S7.
+    + split; [reflexivity|]. exact S7.
 Qed.
 
 Lemma um_castle_none q pc1 :
@@ -380,8 +388,8 @@ Lemma um_castle_none q pc1 :
   umCastleBlock zk q m pc1 = q.
 Proof.
   unfold umCastleBlock. cbv zeta. fold f t. intros [H|[H1 H2]].
-  - rewrite H. reflexivity.
-  - destruct (pc1 =? _); auto.
+  - match goal with |- (if ?c then _ else _) = _ => replace c with false by (symmetry; exact H) end. reflexivity.
+  - match goal with |- (if ?c then _ else _) = _ => destruct c; auto end.
     destruct (Z.eqb_spec (Z.of_N t) (sqPlus f 2)); [contradiction|].
     destruct (Z.eqb_spec (Z.of_N t) (sqPlus f (-2))); [contradiction|]. reflexivity.
 Qed.
